@@ -6,6 +6,7 @@ output writes; processes B and C then build the same kernel on the same cache, f
 and must succeed with the model's output.  Thorough tier enumerates every k of every
 sampled scenario; quick tier samples k with a bias towards in-flight write windows."""
 import hashlib
+import itertools
 import json
 import re
 
@@ -248,16 +249,27 @@ def main(tier):
                 scn["second_crash"] = [{"step": r.randrange(len(pts)), "kind": r.choice(["killbefore", "killafter"])}]
             yield scn
 
-    gen_iter = tasks_quick() if tier == "quick" else tasks_thorough()
+    def tasks_renames():
+        # systematic part of the quick tier: a kill right before and right after every publishing rename of the
+        # file-kernel classes, with the header edited before the follow-up builds (the windows in which a cache entry is
+        # half published are a handful of calls wide: sampling alone hits them too rarely)
+        for s, d in zip(scns, drys):
+            if s["job"]["kind"] != "file":
+                continue
+            for (k, w, desc) in d["points"]:
+                if desc.startswith("rename "):
+                    for kind in ("killbefore", "killafter"):
+                        yield dict(s, faults=[{"step": k, "kind": kind}], edit_after=True)
+
+    gen_iter = itertools.chain(tasks_renames(), tasks_quick()) if tier == "quick" else tasks_thorough()
     total_points = sum(len(d["points"]) for d in drys)
 
     import time
-    deadline = time.time() + common.budget(tier, 75, 1500)
+    deadline = time.time() + common.budget(tier, 90, 1500)
 
     def on_result(task, out):
         ex.absorb(task[1], out)
 
-    import itertools
     n, errors = ex.pool.run(pscheck._exec_task, ((execute, s) for s in itertools.chain(pscheck.corpus(PROP), gen_iter)), deadline, on_result)
     for (t, e) in errors:
         ex.report.engine_errors.append(e)
